@@ -32,6 +32,7 @@ def extra(led, tier, seed):
     led.extend(o for o in fit_loop.obligations() if "labels_ = _infer(X).argmax(1)" in o.name)
     from contracts import infer_local
     led.extend(infer_local.native_locality(seed, tier))
+    led.extend(infer_local.native_locality_large(seed, tier))
     # Kauri: predict(X_train) == labels_ needs the tree to store exactly the rule that partitioned the samples during fit
     from contracts import kauri_fit, kauri_native
     led.extend(o for o in kauri_fit.obligations() if o.name.startswith("Kauri.fit:") and any(k in o.name for k in (
